@@ -45,7 +45,7 @@ func showMain(args []string) int {
 			fmt.Println(err)
 			return 2
 		}
-		doc = c12HTML(&s)
+		doc = c12HTML(&s, 0)
 		fmt.Println(doc)
 	}
 	pages, err := drv.Layout(doc, &drv.Opts{Engine: *engine})
